@@ -1,13 +1,13 @@
 // Prelude of unit `zarrbuf`: everything the extracted code calls but that is not extracted here.
-// Each contract below is an ASSUMPTION of this unit (DESIGN §6: A-std).  Nothing in /repo implements
+// Each contract below is an ASSUMPTION of this unit (ids A-mem-replace, A-vec-extend; for DESIGN §6).  Nothing in /repo implements
 // these functions, they are std library functions.
 use std::mem::replace;
 
-// ---- A-std-replace: `std::mem::replace(dest, src)` returns the old `*dest` and stores `src`.
+// ---- A-mem-replace: `std::mem::replace(dest, src)` returns the old `*dest` and stores `src`.
 pub assume_specification<T> [std::mem::replace] (dest: &mut T, src: T) -> (r: T)
     ensures r == *old(dest), *final(dest) == src;
 
-// ---- A-std-extend: `Vec<T>::extend(Vec<T>)` appends the elements of the argument, in order.
+// ---- A-vec-extend (same stub text as unit hashmap): `Vec<T>::extend(Vec<T>)` appends the elements of the argument, in order.
 // vstd has no specification for `<Vec<T, A> as Extend<T>>::extend` and one cannot be given from
 // here (`A: Allocator` needs a crate-level feature gate), so rule R9.method renames the five
 // calls `vec.extend(v)` in `SampleBuffer::push` to `vec.vx_extend(v)`; the stub's body is the
